@@ -334,7 +334,7 @@ struct Obs : Observer {
         for (int pidx : N.registered) {
             const ParamRec &q = K.params[pidx];
             if (q.kind < ParamRec::UNKNOWN || q.deleted || !made.count(pidx)) continue;
-            double f = N.sc.freq[0];
+            double f = N.cur_freq.empty() ? N.sc.freq[0] : N.cur_freq[0];
             dcx v1 = vnacal_get_parameter_value(K.p, q.h, f), v2 = vnacal_get_parameter_value(g.v, made[pidx], f);
             if (!same_bits(v1, v2)) c.fail("C11.history_dependent_solve", "k%d.n%d: solved value of unknown parameter %d is %g%+gi on the original and %g%+gi on the clone", ki, ni, q.h, re_(v1), im_(v1), re_(v2), im_(v2));
         }
@@ -345,13 +345,23 @@ struct Obs : Observer {
         if (c1 < 0) return;
         c1 = vnacal_find_calibration(K.p, "__probe"); c2 = vnacal_find_calibration(g.v, "__probe");
         int P = std::max(N.r, N.c);
+        if (c1 >= 0 && c2 >= 0) {      // the two calibrations carry the same frequencies (refused set_frequency_vector calls changed nothing)
+            int F1 = vnacal_get_frequencies(K.p, c1), F2 = vnacal_get_frequencies(g.v, c2);
+            const double *v1 = vnacal_get_frequency_vector(K.p, c1), *v2 = vnacal_get_frequency_vector(g.v, c2);
+            bool same = F1 == F2 && v1 && v2;
+            for (int f = 0; same && f < F1; f++) if (!same_bits(v1[f], v2[f])) same = false;
+            if (same && F1 > 0) same = same_bits(vnacal_get_fmin(K.p, c1), vnacal_get_fmin(g.v, c2)) && same_bits(vnacal_get_fmax(K.p, c1), vnacal_get_fmax(g.v, c2));
+            if (!same) c.fail("C11.history_dependent_solve", "k%d.n%d saw %d refused call(s); the calibration it solves has %d frequencies %g..%g, the calibration of a clone with the same successful history %d frequencies %g..%g", ki, ni, N.refused, F1, F1 > 0 && v1 ? v1[0] : 0.0, F1 > 0 && v1 ? v1[F1 - 1] : 0.0, F2, F2 > 0 && v2 ? v2[0] : 0.0, F2 > 0 && v2 ? v2[F2 - 1] : 0.0);
+            c.label("clone:frequencies-compared");
+        }
+        const std::vector<double> &af = N.cur_freq.empty() ? N.sc.freq : N.cur_freq;
         if (c1 >= 0 && c2 >= 0 && (N.r == N.c || P == 2)) {
             PMat M(P, P, N.F);
             for (int i = 0; i < P; i++) for (int j = 0; j < P; j++) for (int f = 0; f < N.F; f++)
                 M.cells[(size_t)i * P + j][f] = mkc(i == j ? 0.4 - 0.07 * i + 0.01 * f : 0.15 + 0.03 * i - 0.02 * j, 0.1 * (i - j) + 0.02 * f + 0.05);
             g.d1 = vnadata_alloc(errlog_fn, &clog); g.d2 = vnadata_alloc(errlog_fn, &clog);
-            errno = 0; int a1 = vnacal_apply_m(K.p, c1, N.sc.freq.data(), N.F, M.p(), P, P, g.d1); int ae1 = errno;
-            errno = 0; int a2 = vnacal_apply_m(g.v, c2, N.sc.freq.data(), N.F, M.p(), P, P, g.d2); int ae2 = errno;
+            errno = 0; int a1 = vnacal_apply_m(K.p, c1, af.data(), N.F, M.p(), P, P, g.d1); int ae1 = errno;
+            errno = 0; int a2 = vnacal_apply_m(g.v, c2, af.data(), N.F, M.p(), P, P, g.d2); int ae2 = errno;
             if (a1 != a2 || (a1 != 0 && ae1 != ae2)) c.fail("C11.history_dependent_solve", "k%d.n%d: apply_m of the probe returns %d (errno %d) with the original's calibration, %d (errno %d) with the clone's", ki, ni, a1, ae1, a2, ae2);
             if (a1 == 0) {
                 std::string d1 = digest_data(g.d1, false), d2 = digest_data(g.d2, false);
